@@ -412,6 +412,34 @@ func genRoute(quick bool, emit func(Data)) {
 	}
 }
 
+// family route-doubled-joint: two member ways that connect at a node which one of them
+// lists twice in a row at that end (a zero-length segment right at the seam: it is a segment
+// of the member way like any other).
+func genRouteDoubledJoint(emit func(Data)) {
+	shapes := [][2][]int64{{{11, 12, 12}, {12, 13}}, {{11, 12}, {12, 12, 13}}, {{11, 12, 12}, {12, 12, 13}}, {{11, 11, 12}, {12, 13, 13}}}
+	for si, sh := range shapes {
+		for dirs := 0; dirs < 4; dirs++ {
+			for pi, perm := range perms(2) {
+				d := Data{Family: "route-doubled-joint", Name: fmt.Sprintf("route-doubled-joint/shape%d/dirs%b/perm%d", si, dirs, pi)}
+				for j := 0; j < 2; j++ {
+					ids := sh[j]
+					if dirs&(1<<j) != 0 {
+						ids = rev(ids)
+					}
+					d.Ways = append(d.Ways, mkWay(int64(j+1), []Tag{{"highway", "primary"}}, metaPat(j, int64(j+1)), ids...))
+				}
+				rel := DRel{ID: 1, Tags: []Tag{{"type", "route"}, {"route", "bus"}}, Meta: metaPat(1, 1)}
+				for _, j := range perm {
+					rel.Members = append(rel.Members, DMember{Type: "way", Ref: int64(j + 1)})
+				}
+				d.Rels = append(d.Rels, rel)
+				nodesFor(&d, nil, 2)
+				emit(d)
+			}
+		}
+	}
+}
+
 // family route-long: 5 (thorough: also 6) two-node ways in a chain, EVERY member
 // order. The joiner removes a matched segment from a list that it keeps in
 // two halves; with five or more members the match can sit deep in the first
@@ -830,6 +858,7 @@ func enumerate(quick bool) []Data {
 	genUnintKey(emit)
 	genWay(quick, emit)
 	genRoute(quick, emit)
+	genRouteDoubledJoint(emit)
 	genRouteLong(quick, emit)
 	genRouteTopology(emit)
 	genArea(emit)
